@@ -674,6 +674,7 @@ def decViaStr (P : Prims) (d : V) : Outcome DecV :=
   | .int _ i => .ok (.fin (decide (i < 0)) i.natAbs 0)
   | .float _ f => if fZero f then .ok (.fin false 0 (-1)) else P.decOfFloatRepr f
   | .str _ s => decOfStr P (pyStrip s)
+  | .complex _ _ => .escape .invalidOperation                  -- Decimal('(1+0j)')
   | v => do
     let s ← P.strOf v
     decOfStr P (pyStrip s)
@@ -870,38 +871,47 @@ def toFloat (P : Prims) (E : Env) (f : Flags) (c : Nat) (v : V) : Outcome V :=
       let d ← attemptFromNumber P E f v
       floatOf P c d
 
+/-- finite Decimal with exponent 0 (`data.is_finite()` and `not data.as_tuple().exponent`) -/
+def decFinExp0 : DecV → Bool
+  | .fin _ _ e => e == 0
+  | _ => false
+
+/-- the tail of `to_integer` (:422-435): `Decimal(data)` (InvalidOperation → TypeError), the no_data_loss
+checks, `t(data)` -/
+def intFinish (P : Prims) (f : Flags) (c : Nat) (d : V) : Outcome V :=
+  match decimalOf P d with
+  | .escape .invalidOperation => .perr .typeError
+  | .ok x =>
+    if f.ndl && !decFinExp0 x then .perr .typeError else do
+    let i ← intOfDec x
+    pure (.int c i)
+  | .perr e => .perr e
+  | .escape e => .escape e
+  | .diverge => .diverge
+  | .unmodelled w => .unmodelled w
+
 open Utv.Gen.Tables in
+/-- `to_integer` after `_attempt_from_number` (:414-420): the word tables (plain `0` / `1`, whatever `t` is),
+the `isinstance(data, t)` shortcut -/
+def intAfter (P : Prims) (f : Flags) (c : Nat) (d : V) : Outcome V :=
+  match d with
+  | .str _ s =>
+    if FALSE_VALUES.contains (pyLower s) then .ok (.int 0 0)
+    else if TRUE_VALUES.contains (pyLower s) then .ok (.int 0 1)
+    else intFinish P f c d
+  | _ => if isInstT d (.cls .int c) then .ok d else intFinish P f c d
+
 /-- `to_integer` :401-435 -/
 def toInteger (P : Prims) (E : Env) (f : Flags) (c : Nat) (v : V) : Outcome V :=
   match v with
   | .bool b => .ok (.int c (if b then 1 else 0))
   | .int _ i => .ok (.int c i)
   | _ =>
-    let finish (d : V) : Outcome V :=
-      -- `try: data = Decimal(data)  except decimal.InvalidOperation: raise TypeError`
-      match decimalOf P d with
-      | .escape .invalidOperation => .perr .typeError
-      | .ok x =>
-        let strictOk : Bool := match x with
-          | .fin _ _ e => e == 0
-          | _ => false
-        if f.ndl && !strictOk then .perr .typeError else do
-        let i ← intOfDec x
-        pure (.int c i)
-      | .perr e => .perr e
-      | .escape e => .escape e
-      | .diverge => .diverge
-      | .unmodelled w => .unmodelled w
     if f.nec then
-      if isInst v .float || isInst v .decimal then finish v else .perr .typeError
+      if isInst v .float || isInst v .decimal then intFinish P f c v else .perr .typeError
     else do
       let d ← attemptFromNumber P E f v
-      match d with
-      | .str _ s =>
-        if FALSE_VALUES.contains (pyLower s) then .ok (.int 0 0)
-        else if TRUE_VALUES.contains (pyLower s) then .ok (.int 0 1)
-        else finish d
-      | _ => if isInstT d (.cls .int c) then .ok d else finish d
+      intAfter P f c d
 
 /-- `to_decimal` :437-449 -/
 def toDecimal (P : Prims) (E : Env) (f : Flags) (c : Nat) (v : V) : Outcome V :=
@@ -916,19 +926,30 @@ def toDecimal (P : Prims) (E : Env) (f : Flags) (c : Nat) (v : V) : Outcome V :=
     let x ← decViaStr P d
     pure (.dec c x)
 
+/-- `complex(d)`: exact on complex / float / zero, a builtin otherwise -/
+def complexOf (P : Prims) (d : V) : Outcome V :=
+  match d with
+  | .complex re im => .ok (.complex (normZ re) (normZ im))
+  | .float _ f => .ok (.complex (normZ f) (.fin 0 0))
+  | .int _ i => if i == 0 then .ok (.complex (.fin 0 0) (.fin 0 0)) else P.complexOf d
+  | .bool b => if b then P.complexOf d else .ok (.complex (.fin 0 0) (.fin 0 0))
+  | .dec _ (.fin s c e) => if c == 0 then .ok (.complex (.fin 0 0) (.fin 0 0)) else P.complexOf (.dec 0 (.fin s c e))
+  | .str _ s => if s == "" then .perr .valueError else P.complexOf d
+  | _ => P.complexOf d
+
 /-- `to_complex` :451-466 -/
 def toComplex (P : Prims) (E : Env) (f : Flags) (c : Nat) (v : V) : Outcome V :=
   if isInstT v (.cls .complex c) then .ok v else
   if f.nec then do
     let d ← fromByteLike P f v
-    if isInst d .int || isInst d .float || isInst d .decimal || isInst d .str then P.complexOf d
+    if isInst d .int || isInst d .float || isInst d .decimal || isInst d .str then complexOf P d
     else .perr .typeError
   else
     match v with
     | .seq .tuple _ [a, b] => P.complexOf2 a b
     | _ => do
       let d ← attemptFromNumber P E f v
-      P.complexOf d
+      complexOf P d
 
 /-- `data == n` for `n ∈ {0, 1}` (to_bool :472-475); a signalling Decimal NaN raises InvalidOperation -/
 def eqSmall (v : V) (n : Int) : Outcome Bool :=
@@ -1228,6 +1249,26 @@ def convBase (P : Prims) (E : Env) (f : Flags) (b : Base) (v : V) : Outcome V :=
   | .str => toStr P E f 0 v
   | _ => .unmodelled "enum member type"
 
+/-- the `try` body of `to_enum`: convert to the mixed-in member type, then look the value up -/
+def enumBody (P : Prims) (E : Env) (f : Flags) (k : Nat) (d : EnumDecl) (v : V) : Outcome V :=
+  match d.memberType with
+  | some b => do
+    let value ← convBase P E f b v
+    enumCall E k value
+  | Option.none => enumCall E k v
+
+/-- the `except` branch of `to_enum`: without no_data_loss a str that is a member name gives that member,
+otherwise the exception `o` is re-raised -/
+def enumNameFallback (E : Env) (f : Flags) (k : Nat) (v : V) (o : Outcome V) : Outcome V :=
+  match v with
+  | .str _ name =>
+    if !f.ndl then
+      match enumByName E k name with
+      | some r => .ok r
+      | Option.none => o
+    else o
+  | _ => o
+
 /-- `to_enum` :649-670 (with fix C12-enum-value-first: member names are a lenient fallback after the value
 lookup, so a name never shadows another member's value) -/
 def toEnum (P : Prims) (E : Env) (f : Flags) (k : Nat) (v : V) : Outcome V :=
@@ -1239,32 +1280,10 @@ def toEnum (P : Prims) (E : Env) (f : Flags) (k : Nat) (v : V) : Outcome V :=
     match E.enum? k with
     | Option.none => .unmodelled "no such enum"
     | some d =>
-      let body : Outcome V :=
-        match d.memberType with
-        | some b => do
-          let value ← convBase P E f b v
-          enumCall E k value
-        | Option.none => enumCall E k v
-      match body with
+      match enumBody P E f k d v with
       | .ok r => .ok r
-      | .perr e =>
-        (match v with
-         | .str _ name =>
-           if !f.ndl then
-             match enumByName E k name with
-             | some r => .ok r
-             | Option.none => .perr e
-           else .perr e
-         | _ => .perr e)
-      | .escape e =>
-        (match v with
-         | .str _ name =>
-           if !f.ndl then
-             match enumByName E k name with
-             | some r => .ok r
-             | Option.none => .escape e
-           else .escape e
-         | _ => .escape e)
+      | .perr e => enumNameFallback E f k v (.perr e)
+      | .escape e => enumNameFallback E f k v (.escape e)
       | .diverge => .diverge
       | .unmodelled w => .unmodelled w
 
